@@ -56,35 +56,88 @@ Definition fkind_eqb (a b : fkind) : bool :=
 
 Definition trim_ok (s : str) : bool := str_eqb (trim_space s) s.
 
-(* per cell: non-negative int64 rendered as %032d; text without bytes <= 0x22 (so that the closing quote cannot
-   decide a comparison); bool / blob / node / predicate / string cells whose compared string is the printed form and
-   has no leading or trailing white space.  Time anchors and float64 are NOT in this predicate: their formatting
-   is an oracle. *)
-Definition d12_cell (c : cell) : bool :=
-  match c with
-  | CNull => true
-  | CS s | CN s | CP s => trim_ok s
-  | CT _ => false
-  | CL l =>
-      match l_val l with
-      | VInt v => (0 <=? v)%Z && (v <? two63)%Z && str_eqb (l_cmp l) (int_cmp_string v)
-      | VText s => above_quote s && str_eqb (l_cmp l) (text_string s)
-      | VFloat _ => false
-      | VBool _ | VBlob _ => str_eqb (l_cmp l) (l_str l) && trim_ok (l_cmp l)
-      end
+(* D12, generic in what is known about the two ORACLE formats (RFC3339Nano of time anchors, %032f of float64):
+   [tm_ok t]  the printed form of the anchor is accepted (e.g. it is the oracle's rendering of its instant),
+   [tm_pair]  two anchors are comparable through their printed forms (same zone, same number of fraction digits),
+   [fl_ok l]  the comparable string of the float64 literal is accepted (value inside the domain of the oracle law).
+   Per cell otherwise: non-negative int64 rendered as %032d; text without bytes <= 0x22 (so that the closing quote
+   cannot decide a comparison); bool / blob / node / predicate / string cells whose compared string is the printed
+   form and has no leading or trailing white space. *)
+Section D12.
+  Variable tm_ok : tim -> bool.
+  Variable tm_pair : tim -> tim -> bool.
+  Variable fl_ok : lit -> bool.
+
+  Definition d12_cell_gen (c : cell) : bool :=
+    match c with
+    | CNull => true
+    | CS s | CN s | CP s => trim_ok s
+    | CT t => tm_ok t
+    | CL l =>
+        match l_val l with
+        | VInt v => (0 <=? v)%Z && (v <? two63)%Z && str_eqb (l_cmp l) (int_cmp_string v)
+        | VText s => above_quote s && str_eqb (l_cmp l) (text_string s)
+        | VFloat _ => fl_ok l
+        | VBool _ | VBlob _ => str_eqb (l_cmp l) (l_str l) && trim_ok (l_cmp l)
+        end
+    end.
+
+  Definition pair_ok_gen (a b : cell) : bool :=
+    match a, b with
+    | CT x, CT y => tm_pair x y
+    | _, _ => true
+    end.
+
+  Definition same_fine_kinds_gen (c : list skey) (ri rj : row) : bool :=
+    forallb (fun k => match rget ri (k_b k), rget rj (k_b k) with
+                      | Some a, Some b => fkind_eqb (fine_kind a) (fine_kind b) && pair_ok_gen a b
+                      | _, _ => false
+                      end) c.
+
+  Definition d12_row_gen (c : list skey) (r : row) : bool :=
+    forallb (fun k => match rget r (k_b k) with Some x => d12_cell_gen x | None => false end) c.
+
+  Definition d12_gen (c : list skey) (rows : list row) : bool :=
+    forallb (fun ri => d12_row_gen c ri && forallb (fun rj => same_fine_kinds_gen c ri rj) rows) rows.
+End D12.
+
+(* the instance that knows nothing about the oracle formats: time anchors and float64 are outside *)
+Definition no_tim (_ : tim) : bool := false.
+Definition any_tim_pair (_ _ : tim) : bool := true.
+Definition no_lit (_ : lit) : bool := false.
+Definition d12_cell := d12_cell_gen no_tim no_lit.
+Definition same_fine_kinds := same_fine_kinds_gen any_tim_pair.
+Definition d12_row := d12_row_gen no_tim no_lit.
+Definition d12 := d12_gen no_tim any_tim_pair no_lit.
+
+(* the instance for a given rendering of time anchors and of float64 literals (oracles):
+   anchors: printed form = the rendering of (instant, zone); comparable when zone and length agree;
+   float64: finite, non-negative, below 10^25, at most six decimals (value * 10^6 is an integer), and the comparable
+   string is the rendering *)
+Definition sf_in_domain (f : spec_float) : bool :=
+  match f with
+  | S754_zero _ => true
+  | S754_finite false m e =>
+      let num := (Z.pos m * 10 ^ 6)%Z in
+      (if (0 <=? e)%Z then true else Z.eqb (num mod 2 ^ (- e)) 0)%Z &&
+      (if (0 <=? e)%Z then (Z.pos m * 2 ^ e <? 10 ^ 25)%Z else (Z.pos m <? 10 ^ 25 * 2 ^ (- e))%Z)
+  | _ => false
   end.
 
-Definition same_fine_kinds (c : list skey) (ri rj : row) : bool :=
-  forallb (fun k => match rget ri (k_b k), rget rj (k_b k) with
-                    | Some a, Some b => fkind_eqb (fine_kind a) (fine_kind b)
-                    | _, _ => false
-                    end) c.
+Section Oracles.
+  Variable fmt_time : Z -> Z -> str.        (* instant (ns), zone offset (s) -> Time.Format(RFC3339Nano) *)
+  Variable fmt_float : spec_float -> str.   (* value -> Literal.ToComparableString() of a float64 literal *)
 
-Definition d12_row (c : list skey) (r : row) : bool :=
-  forallb (fun k => match rget r (k_b k) with Some x => d12_cell x | None => false end) c.
-
-Definition d12 (c : list skey) (rows : list row) : bool :=
-  forallb (fun ri => d12_row c ri && forallb (fun rj => same_fine_kinds c ri rj) rows) rows.
+  Definition tm_ok_o (t : tim) : bool := in_int64 (t_ns t) && str_eqb (t_str t) (fmt_time (t_ns t) (t_off t)).
+  Definition tm_pair_o (a b : tim) : bool :=
+    Z.eqb (t_off a) (t_off b) && Nat.eqb (length (t_str a)) (length (t_str b)).
+  Definition fl_ok_o (l : lit) : bool :=
+    match l_val l with
+    | VFloat f => sf_in_domain f && str_eqb (l_cmp l) (fmt_float f)
+    | _ => false
+    end.
+  Definition d12_o := d12_gen tm_ok_o tm_pair_o fl_ok_o.
+End Oracles.
 
 (* boolean versions used by the correspondence and by the refutations *)
 Fixpoint ssorted_b {A} (r : A -> A -> bool) (l : list A) : bool :=
